@@ -366,7 +366,7 @@ class WsgiApplication(HttpBase):
         if self.doc.wsdl11 is None:
             start_response(HTTP_404,
                                   _gen_http_headers(ctx.transport.resp_headers))
-            return [HTTP_404]
+            return _ResponseIterator([HTTP_404.encode('ascii')], ctx.close)
 
         if self._wsdl is None:
             self._wsdl = self.doc.wsdl11.get_interface_document()
@@ -393,7 +393,7 @@ class WsgiApplication(HttpBase):
                 start_response(HTTP_500,
                                   _gen_http_headers(ctx.transport.resp_headers))
 
-                return [HTTP_500]
+                return _ResponseIterator([HTTP_500.encode('ascii')], ctx.close)
 
             finally:
                 self._mtx_build_interface_document.release()
